@@ -44,9 +44,13 @@ class ChkSectionTranscoder(Protocol[_T]):
         else:
             raw_section_name = chk_section_name
         data: bytes = b""
+        # frame the name by its encoded byte length, not its character count
+        raw_section_name_bytes: bytes = raw_section_name.encode(
+            _STRING_ENCODING, errors="surrogateescape"
+        )
         data += struct.pack(
-            "{}s".format(len(raw_section_name)),
-            bytes(raw_section_name, _STRING_ENCODING),
+            "{}s".format(len(raw_section_name_bytes)),
+            raw_section_name_bytes,
         )
         data += struct.pack("I", chk_binary_data_size)
         return data
